@@ -90,6 +90,14 @@ def check(prop: str, tier: str, only: str | None = None, repo: str | None = None
         rep.extra["functions_analysed"] = len(ctx.cg.funcs)
     if ctx._tmpl is not None:
         rep.extra.update(ctx.tmpl.stats())
+    if tier == "thorough" and not only:
+        # self-test of this property's rules on scratch variants of the repository
+        from . import selftest
+
+        rc2 = selftest.run_selftest(prop=prop, jobs=16, quiet=True)
+        rep.extra["selftest"] = dict(selftest.LAST_SUMMARY)
+        if rc2 != 0:
+            rep.analysis_errors.append("self-test of the rules failed: a mutant/seeded change was missed or an equivalent variant raised an alarm (see the [selftest] lines)")
     return rep.finish()
 
 
@@ -143,18 +151,7 @@ def main(argv=None):
     args = ap.parse_args(argv)
 
     if args.cmd == "check":
-        def go():
-            rc = check(args.prop, args.tier, args.only, args.repo)
-            if rc == 0 and args.tier == "thorough" and not args.only:
-                from .selftest import run_selftest
-
-                rc2 = run_selftest(prop=args.prop, jobs=16, quiet=True)
-                if rc2 != 0:
-                    print(f"ANALYSIS-ERROR property={args.prop} self-test of the rules failed (see above)")
-                    return 2
-            return rc
-
-        return run_guarded(go)
+        return run_guarded(lambda: check(args.prop, args.tier, args.only, args.repo))
     if args.cmd == "all":
         rc = 0
         for p in PROPS:
